@@ -8,4 +8,6 @@ require (
 	github.com/xjslang/xjs v0.0.0
 )
 
+require golang.org/x/text v0.3.8 // indirect
+
 replace github.com/xjslang/xjs => /repo
